@@ -211,3 +211,56 @@ Example C03_reg_nonvacuous :
   rp_trace rfl_src rp0 rp_nonvacuous_schedule = [AReg 0; AReg 1; AReg 2; ARefresh; ARefresh; ARefresh; ARefresh] /\
   calls_done rfl_src rp0 rp_nonvacuous_schedule = 4%nat.
 Proof. exact rp_nonvacuous. Qed.
+
+(* ---- backend buffer growth: the slot array of TransitEventBuffer (M-TEB) refines the list M-BE uses ---- *)
+From Quill Require TEB.TEBModel TEB.TEBProofs TieTEB.
+
+(* T-src: the TransitEventBuffer methods are, statement by statement, the ones M-TEB mirrors, and the variant of the
+   model the source selects (growth factor 2, mask updated, copy from the reader position, shrink only when empty,
+   expansion exactly when full) is the one the theorems below are about *)
+Theorem C03_tie_transit_buffer : Quill.TieTEB.TEB_tie_holds.
+Proof. exact Quill.TieTEB.TEB_tie. Qed.
+Print Assumptions C03_tie_transit_buffer.
+
+(* for every initial capacity and every history of the calls the backend makes on the buffer (commit an event,
+   fill a slot and abandon it, pop, request / try a shrink), whatever the fill level at which the ring wraps, grows
+   or shrinks: front(), size() and capacity() after every call are those of a plain list whose capacity doubles
+   when it is full - the buffer M-BE (and so C03_conservation) is stated on *)
+Theorem C03_transit_buffer_refines_fifo : forall (A : Type) (dflt : A) (c0 : N) (ops : list (TEB.TEBModel.top A)),
+  TEB.TEBModel.teb_run A dflt TEB.TEBModel.tcfg_good (TEB.TEBModel.teb_init A dflt c0) ops =
+  TEB.TEBModel.fifo_run A (TEB.TEBModel.fifo_init A c0) ops.
+Proof. exact TEB.TEBProofs.teb_refines_fifo. Qed.
+Print Assumptions C03_transit_buffer_refines_fifo.
+
+(* in every reachable buffer a committed event is appended behind all queued events and an abandoned fill changes none *)
+Theorem C03_transit_buffer_growth_keeps_all : forall (A : Type) (dflt : A) (c0 : N) (ops : list (TEB.TEBModel.top A)) (v : A),
+  let s := TEB.TEBProofs.teb_exec A dflt (TEB.TEBModel.teb_init A dflt c0) ops in
+  TEB.TEBModel.teb_abs A dflt (TEB.TEBModel.teb_step A dflt TEB.TEBModel.tcfg_good s (TEB.TEBModel.OPut v)) =
+    TEB.TEBModel.teb_abs A dflt s ++ [v] /\
+  TEB.TEBModel.teb_abs A dflt (TEB.TEBModel.teb_step A dflt TEB.TEBModel.tcfg_good s (TEB.TEBModel.OTouch v)) =
+    TEB.TEBModel.teb_abs A dflt s.
+Proof. exact TEB.TEBProofs.teb_put_keeps_all. Qed.
+Print Assumptions C03_transit_buffer_growth_keeps_all.
+
+(* capacity is a power of two, never below the initial one, never below the number of queued events *)
+Theorem C03_transit_buffer_bounds : forall (A : Type) (dflt : A) (c0 : N) (ops : list (TEB.TEBModel.top A)),
+  let s := TEB.TEBProofs.teb_exec A dflt (TEB.TEBModel.teb_init A dflt c0) ops in
+  TEB.TEBProofs.pow2 (TEB.TEBModel.cap s) /\ TEB.TEBModel.icap s <= TEB.TEBModel.cap s /\
+  TEB.TEBModel.teb_size A s <= TEB.TEBModel.cap s /\ length (TEB.TEBModel.sto s) = N.to_nat (TEB.TEBModel.cap s).
+Proof. exact TEB.TEBProofs.teb_cap_bounds. Qed.
+Print Assumptions C03_transit_buffer_bounds.
+
+(* each of these details of _expand() / back() is needed: without it a history exists on which the buffer differs
+   from the list (events lost, overwritten or reordered) *)
+Theorem C03_transit_buffer_refuted_without_mask_update :
+  exists c0 ops, TEB.TEBProofs.differs TEB.TEBProofs.K_no_mask c0 ops = true.
+Proof. exact TEB.TEBProofs.teb_refuted_without_mask_update. Qed.
+Print Assumptions C03_transit_buffer_refuted_without_mask_update.
+Theorem C03_transit_buffer_refuted_expand_from_slot0 :
+  exists c0 ops, TEB.TEBProofs.differs TEB.TEBProofs.K_move0 c0 ops = true.
+Proof. exact TEB.TEBProofs.teb_refuted_expand_from_slot0. Qed.
+Print Assumptions C03_transit_buffer_refuted_expand_from_slot0.
+Theorem C03_transit_buffer_refuted_late_expand :
+  exists c0 ops, TEB.TEBProofs.differs TEB.TEBProofs.K_late_full c0 ops = true.
+Proof. exact TEB.TEBProofs.teb_refuted_late_expand. Qed.
+Print Assumptions C03_transit_buffer_refuted_late_expand.
